@@ -67,6 +67,18 @@ CHECKS = {
          "Generated-configuration search: a semantic configuration (mode flags -n/-s/-R, output flags -r/-j/--raw-output0/-c, named arguments incl. duplicates, program inline / -f / omitted, 0..4 inputs that are JSON, undecodable, missing, a directory or stdin, optional injected argument error of 13 kinds) is spelled as an argv in many ways (short/long/alias/-o key=value/--flag=value, combined short flags, duplicates, any order, flags after positionals, `--`), run through in-process interp.Main with a virtual file system, and compared with (1) a harness model of jq's CLI semantics on raw gojq (stdout byte for byte, exit status by 2 > 4 > 5, 3 for non-compiling programs, 2 for argument errors), (2) the real jq 1.6 binary on the comparable subset, (3) composition: stdout of a multi-input run equals the concatenation of cached solo runs, exit status follows the precedence of the solo classes (measured, not assumed), every solo stderr line appears.",
          "Trusted: the CLI model in props/c17, jq 1.6 (/usr/bin/jq) where both tools are comparable. Error text is never compared. -i, -h, -v, --argdecode, -C are not generated. Three by-design/fork divergences from jq are listed known findings.",
          "DESIGN.md 2/C17"),
+ "C07": ("grammar-generated standard jq programs x generated JSON inputs, differential against the embedded gojq engine used directly",
+         "Generated-program search: a typed, weighted grammar (lib/jqgen, ~650 template productions: paths, arithmetic, comparison, alternative, try/catch, reduce/foreach/label, if, construction, string interpolation and @formats, binds and destructuring, function definitions, and every standard built-in fq redefines or wraps, with regex arguments from a regex grammar and literal metacharacter strings) x JSON inputs (big integers, floats, unicode) is evaluated in fq (batched through Interp.Eval, bisected to one case on a mismatch; a sample through the whole CLI) and by raw gojq (Parse/Compile/Run with pass-through debug/stderr); observable = outputs until the first uncaught error + whether it failed. Error text is never compared.",
+         "Trusted: raw gojq as the reference (the engine fq embeds), lib/jqgen. Updates whose left side contains `a, b` and `?//` alternatives binding different variables are not generated (a gojq VM defect makes both engines unreliable there). Three by-design differences of fromjson/split on non-UTF-8 are listed known findings.",
+         "DESIGN.md 2/C07"),
+ "C08": ("generated decoder trees and corpus values x typed read-only query grammar, metamorphic v|q == v|tovalue|q, plus a fq-free reference value",
+         "Generated-case search: decode trees from generated decoder programs (every scalar kind: uint, sint, big int, float, string, bool, null, raw bits, with/without symbolic mapping, nested structs/arrays, JSON-object scalars) and values sampled from corpus trees (97 format buckets) x queries from a typed read-only grammar (361 atoms + composition: type, length, keys, has, index, slice with boundary probes, iterate, paths, comparison/sort, arithmetic, string functions, tojson, to_entries, construction). Oracles: tovalue of the root equals the JSON value the program stands for (computed without fq); `v | q` and `v | tovalue | q` give the same outputs and error flag; keys/to_entries/.[]/paths/tostream follow field order consistently. Documented differences are removed by construction (guarded string-key lookup, no `_` keys, order-independent queries for unsorted structs, content-free queries for non-UTF-8 raw).",
+         "Trusted: the reference value computation and comparison in props/c08. 18 signatures of engine-level (gojq fork) asymmetries and two golden-pinned behaviours are listed known findings.",
+         "DESIGN.md 2/C08"),
+ "C11": ("full-grammar generated programs: parse/print/parse round trip, semantic equality of printed text on raw gojq, wrapper vs literal wrapping",
+         "Generated-program search over the full grammar accepted by the fork's parser (all operators and precedences, unary minus, postfix ?, try without catch, reduce/foreach/label/break, nested defs, import/include directives, string interpolation, format strings, object shorthand, fq literal extensions, redundant/dropped parentheses, comments): (1) _query_fromstring | _query_tostring | _query_fromstring equals the first AST; (2) original and printed text give the same observable on raw gojq; (3) _eval_query_rewrite with harness input/output/catch queries named like user functions (tojson, debug, error) behaves as the literal program `try (IN | (P) | OUT) catch C` on gojq, for six wrapper configurations.",
+         "Trusted: raw gojq, lib/jqgen's precedence-exact printer. The fork's own printer lives outside /repo and cannot be mutated there; oracle (2) is what would see a wrong parenthesis in it. One finding (slurp/help/repl hijack of user-defined functions) is listed known.",
+         "DESIGN.md 2/C11"),
 }
 
 NOT_YET = {}
